@@ -135,6 +135,9 @@ var c05Names = []string{
 	"evil/inner", "evil/newfile", "evil/sub/newfile", "evil2/file", "evil_up/sibling_file",
 	"a/../../sibling_file", "./../sibling_file", "a/b/../../../sibling_dir/inner", "dir/../../newfile", "dest/../../x",
 	"../dest_evil/file", "../%R_evil/file", "plain", "dir/plain", "dir",
+	// names that end in a slash (or in "/."): the last component is resolved
+	// like a directory, i.e. THROUGH a symlink
+	"link_out/", "link_abs/", "link_up/", "evil/", "evil2/", "link_out/.", "link_out//", "../sibling_dir/", "link_prefix/",
 }
 
 // upload sub-directory arguments (module side): plain, through symlinks that
@@ -239,6 +242,22 @@ func (c05) Generate(seed uint64, tier string, index int) any {
 	for i := 0; i < g.R.Intn(3); i++ {
 		sc.Entries = append(sc.Entries, C05Entry{Name: fstree.Name("benign_" + g.NameComponent(true)), Type: "f", Perm: 0o644, Size: int64(g.R.Intn(500))})
 	}
+	if g.R.Intn(5) == 0 {
+		// the same name several times with different types: whatever is
+		// remembered about the first (a directory to re-chmod at the end, a file
+		// to receive) is later applied to what the last one made of the path
+		kinds := [][]string{{"d", "f", "l"}, {"d", "l"}, {"f", "l"}, {"l", "d"}, {"d", "l", "f"}, {"l", "f"}}[g.R.Intn(6)]
+		for _, k := range kinds {
+			e := C05Entry{Name: "trio", Type: k, Perm: []uint32{0o555, 0o700, 0o777, 0o644}[g.R.Intn(4)]}
+			switch k {
+			case "l":
+				e.Link = fstree.Name([]string{"../sibling_dir", "%A", "../sibling_file", ".."}[g.R.Intn(4)])
+			case "f":
+				e.Size = int64(g.R.Intn(2000))
+			}
+			sc.Entries = append(sc.Entries, e)
+		}
+	}
 	sc.Unsolicited = g.R.Intn(3) == 0
 	sc.Tr = g.TransportFor(12, 64<<10)
 	if sc.Tr.CapSC != kernel.Unbounded && sc.Tr.CapSC < 4096 {
@@ -255,6 +274,22 @@ func (c05) Run(t *testing.T, scenario any, job *Job, res *Result) {
 	if len(sc.Entries) == 0 {
 		res.Invalid = "no entries"
 		return
+	}
+	// A list that makes a name a fifo and then names something below it makes
+	// the receiver open that fifo as a directory, and open(2) of a fifo blocks
+	// until a writer turns up: a stall a hostile peer can cause in many ways,
+	// outside the property (see DESIGN 9) and three minutes of watchdog here.
+	for _, a := range sc.Entries {
+		if a.Type != "fifo" {
+			continue
+		}
+		an := strings.TrimRight(string(a.Name), "/")
+		for _, b := range sc.Entries {
+			if strings.HasPrefix(string(b.Name), an+"/") && strings.TrimRight(string(b.Name), "/") != an {
+				res.Invalid = "an entry below a fifo of the same list"
+				return
+			}
+		}
 	}
 	cr, err := newCanaryRing(job.Scratch, "dest")
 	if err != nil {
